@@ -1,11 +1,12 @@
 ----------------------------- MODULE FindingsC15 -----------------------------
-(* Classes of known deviations of the unchanged tree from C15 (known_findings.json).          *)
+(* Classes of known deviations from C15 (known_findings.json).  F-C15-1 is FIXED (6e03b47):  *)
+(* the class stays (a fixed entry suppresses nothing; a recurrence is a VIOLATION of this class). *)
 (*                                                                                            *)
 (* unique_checker_lazy_reinit (F-C15-1): when the process starts validating with the          *)
 (* uniqueness checker reset (RegisterArrayUniqueItemsChecker(nil), the documented way back to *)
 (* the default, used by the library's own tests), every array validation finds the package    *)
 (* variable nil and writes the default into it, unsynchronised: concurrent array validations  *)
-(* race in visitJSONArray.  Model: MC_C15 variant "unique_nil" (UniqueCheckerSet = FALSE).    *)
+(* race in visitJSONArray.  Model: MC_C15 variant "unique_lazy" (refuted design).            *)
 (* Trigger: configuration unique_nil; observation: a race whose two stacks are both topped by *)
 (* visitJSONArray.                                                                            *)
 EXTENDS Naturals, Sequences
